@@ -39,6 +39,8 @@ pub fn scenarios(tier: &str) -> Vec<Scenario> {
 			scenario("power-loss/hash/n2", small_family(), 2, 1, pl(1, 8), false),
 			scenario("power-loss/hash+btree/n1", kv_family(), 1, 1, pl(1, 8), false),
 			scenario("power-loss/index-first-and-last-chunks/n2", index_edges_family(), 2, 0, pl(0, 8), false),
+			// three commits in the order of the alphabet: log files are recycled (a lower file id may hold newer records)
+			crate::props::c16::ordered(scenario("power-loss/hash-overwrite/n3-in-order", crate::props::c16::overwrite_family(), 3, 0, pl(0, 6), false)),
 		]
 	}
 }
